@@ -2,6 +2,9 @@ use crate::common::*;
 
 pub mod c04;
 pub mod c06;
+pub mod c07;
+pub mod c08;
+pub mod c09;
 pub mod c20;
 
 pub fn stack_mb(engine: &str) -> usize {
@@ -16,6 +19,9 @@ pub fn dispatch(engine: &str, cfg: &Cfg) -> i32 {
     match engine {
         "c04" => c04::run(cfg),
         "c06" => c06::run(cfg),
+        "c07" => c07::run(cfg),
+        "c08" => c08::run(cfg),
+        "c09" => c09::run(cfg),
         "c20" => c20::run(cfg),
         _ => {
             eprintln!("unknown engine {engine}");
